@@ -120,4 +120,15 @@ theorem Di.isolate_idem (s : Store K E) (h : Mirror s) (u : K) :
          ((Di.isolate (Di.isolate s u).1 u).1.get w).inn = ((Di.isolate s u).1.get w).inn :=
   Di.isolate_idem' s h u
 
+theorem Un.isolate_idem (s : Store K E) (h : Mirror s) (u : K) :
+    ∀ w, ((Un.isolate (Un.isolate s u).1 u).1.get w).out = ((Un.isolate s u).1.get w).out ∧
+         ((Un.isolate (Un.isolate s u).1 u).1.get w).inn = ((Un.isolate s u).1.get w).inn :=
+  Un.isolate_idem' s h u
+
+/-- after `isolate` the node is an orphan and no node lists it any more, in either direction -/
+theorem Di.isolate_orphan (s : Store K E) (h : Mirror s) (u : K) :
+    ((Di.isolate s u).1.get u).out = [] ∧ ((Di.isolate s u).1.get u).inn = [] ∧
+    ∀ w, vals ((Di.isolate s u).1.get w).out u = [] ∧ vals ((Di.isolate s u).1.get w).inn u = [] :=
+  Di.isolate_orphan' s h u
+
 end G
